@@ -500,6 +500,11 @@ func (env *SpecEnv) valuesEqual(x *SExpr, a, b Value) *Term {
 			if hl, ok := y.Loc.(*HeapLoc); ok && hl.Path == "" {
 				return mkEq(hl.Ref, tZero)
 			}
+			if ml, ok := y.Loc.(*MemLoc); ok {
+				if _, isInt := interiorElem(y.Typ); isInt {
+					return mkEq(ml.Arr, tZero)
+				}
+			}
 			return tFalse
 		case Scalar:
 			return mkEq(y.T, tZero)
@@ -562,14 +567,30 @@ func (env *SpecEnv) call(x *SExpr) Value {
 		}
 		n := *env
 		n.inOld = true
-		return n.eval(x.Args[0])
+		k0 := len(env.old.pc)
+		v := n.eval(x.Args[0])
+		// type invariants of values loaded from the old state (slice shapes, ranges) are facts about
+		// constants of that state: keep them in the current path condition too
+		if env.st != nil && env.st != env.old && len(env.old.pc) > k0 {
+			for _, t := range env.old.pc[k0:] {
+				env.st.assume(t)
+			}
+		}
+		return v
 	case "pre":
 		if env.pre == nil {
 			env.fail(x, "pre() is only available in loop invariants")
 		}
 		n := *env
 		n.inPre = true
-		return n.eval(x.Args[0])
+		k0 := len(env.pre.pc)
+		v := n.eval(x.Args[0])
+		if env.st != nil && env.st != env.pre && len(env.pre.pc) > k0 {
+			for _, t := range env.pre.pc[k0:] {
+				env.st.assume(t)
+			}
+		}
+		return v
 	case "len", "cap":
 		v := env.eval(x.Args[0])
 		switch b := v.(type) {
@@ -657,6 +678,20 @@ func (env *SpecEnv) call(x *SExpr) Value {
 			cs = append(cs, mkEq(asTerm(el), mkInt64(int64(x.Args[2].Str[q]))))
 		}
 		return boolVal(mkAnd(cs...))
+	case "parr", "pidx":
+		// parr(p) / pidx(p): backing array id and absolute index of an interior pointer
+		pv, ok := env.eval(x.Args[0]).(PtrVal)
+		if !ok {
+			env.fail(x, x.Name+"(interior pointer)")
+		}
+		ml, ok := pv.Loc.(*MemLoc)
+		if !ok {
+			env.fail(x, x.Name+"(interior pointer)")
+		}
+		if x.Name == "parr" {
+			return mathInt(ml.Arr)
+		}
+		return mathInt(ml.Idx)
 	case "mkslice":
 		// mkslice(arr, off, len): a []byte slice value from its components (cap = len)
 		a, o, l := env.evalInt(x.Args[0]), env.evalInt(x.Args[1]), env.evalInt(x.Args[2])
